@@ -178,12 +178,20 @@ func (fc *fctx) instr(ins ssa.Instruction) {
 		res := fc.call(x.Common(), x.Pos(), x)
 		fc.vals[x] = res
 	case *ssa.Defer:
-		fc.defers = append(fc.defers, deferred{call: x.Common(), block: x.Block(), pos: x.Pos()})
+		fc.defers = append(fc.defers, deferred{call: x.Common(), block: x.Block(), pos: x.Pos(), cond: tr.reach})
 	case *ssa.RunDefers:
 		for i := len(fc.defers) - 1; i >= 0; i-- {
 			d := fc.defers[i]
 			if !d.block.Dominates(x.Block()) {
-				unsup("conditional defer in %s", fnKey(fc.fn))
+				// a defer statement on some paths only: its call runs exactly when the statement was reached
+				saveReach := tr.reach
+				before := tr.cur.clone()
+				tr.reach = and(saveReach, d.cond)
+				fc.call(d.call, d.pos, nil)
+				after := tr.cur
+				tr.reach = saveReach
+				tr.cur = tr.mergeStates([]string{d.cond, not(d.cond)}, []*State{after, before})
+				continue
 			}
 			fc.call(d.call, d.pos, nil)
 		}
